@@ -23,6 +23,7 @@ func init() {
 		ruleWildcardOpt(c, r)
 		ruleReflectString(c, r, c.anchored("C02"))
 		ruleRenderSkip(c, r)
+		ruleSliceEmptiness(c, r, 3)
 		rulePrefixPair(c, r)
 		ruleSetOrder(c, r)
 		ruleEmptyLeafList(c, r)
@@ -168,6 +169,7 @@ func init() {
 		r.Decides("pruneBranchesInternal's result flag is monotone; every Set writes a zero value into an empty struct-pointer/ordered-map field; ordered maps are recognised before struct pointers are dereferenced (no reflection into unexported fields); non-pointer leaves are compared with their type's zero value.",
 			"idempotence; BuildEmptyTree∘Prune identity at value level.")
 		rulePrune(c, r)
+		ruleSliceEmptiness(c, r, 3)
 	})
 	register("C18", func(c *Ctx, r *Report) {
 		r.Decides("float→integer conversions are preceded by a sound integrality+range test on the float; integer TypedValues only reach leaves through the range-checking parser; every parse error is tested and returned; kind tests precede the per-kind dispatch in both decoders; no sign-changing conversions.",
@@ -205,6 +207,7 @@ func init() {
 			"index/slice bounds, nil dereferences, panics inside reflect for invalid Values (e.g. Interface() on a zero Value), panics inside dependencies.")
 		fs := c.entryReach(r, c20Entries...)
 		c.stats["functions_analysed"] = len(fs)
+		encPair = ruleEncPair(c, r)
 		ruleAssert(c, r, fs)
 		ruleIfaceEq(c, r, fs)
 		ruleCallArity(c, r, fs)
